@@ -13,7 +13,7 @@ Implementation-side oracle (no model): a comment of every kind inserted into eve
 corpus of valid modules; format once and twice with the real parser+printer; comment word sequence
 kept, second format identical, no panic, output still parses.
 """
-import json, os, glob, collections
+import json, os, glob, collections, hashlib
 from . import common
 from .common import hexs
 
@@ -376,6 +376,25 @@ HAND_BASES = [
 ]
 
 
+def _imp(lines, semi=True, tail="class Main { function main(): unit = {} }\n"):
+    return "".join(f"import {{ {m} }} from {p}{';' if semi else ''}\n" for p, m in lines) + ("\n" + tail if tail else "")
+
+
+# modules with 0..4 import lines: distinct modules in and out of order, several lines importing the
+# same module (adjacent and interleaved), unsorted members, with and without `;`, imports only
+IMPORT_SPECS = [
+    [("m.A", "X")],
+    [("m.B", "X"), ("m.A", "Y")],
+    [("m.A", "B, A"), ("m.A", "C")],
+    [("m.B", "Z"), ("m.A", "Y"), ("m.B", "X, W")],
+    [("m.B", "Q"), ("m.A", "Y"), ("m.B", "P"), ("m.A", "X")],
+    [("m.A", "A"), ("m.A", "B"), ("m.A", "C")],
+    [("std.list", "List"), ("a.C", "K, J"), ("std.list", "Cons")],
+]
+IMPORT_BASES = [_imp(sp) for sp in IMPORT_SPECS] + [_imp(sp, semi=False) for sp in IMPORT_SPECS[1:5]] + \
+               [_imp(IMPORT_SPECS[3], tail=""), _imp(IMPORT_SPECS[4], semi=False, tail="")]
+
+
 def tokcls(t):
     return t[5] if t[0] in ("kw", "op") else ("CMT" if t[0] in COMMENT_KINDS else t[0])
 
@@ -436,12 +455,69 @@ def make_cases(bases, basetoks, select):
             p = pos[gi]
             m = (b[:p] + (" " + comment_text(kind, text) + " ").encode() + b[p:]).decode()
             cases.append({"base": bi, "gap": gi, "kind": kind, "text": text, "width": width,
+                          "key": f"{hashlib.sha1(b).hexdigest()[:10]}:{gi}:{kind}",
                           "ctx4": " ".join(cls[gi:gi + 4]), "ctx2": " ".join(cls[gi + 1:gi + 3]), "src": m})
     return cases
 
 
 def words_of(tl):
     return [(t[0], w) for t in tl if t[0] in COMMENT_KINDS for w in t[5].split()]
+
+
+def import_statements(tl):
+    """[(end index in tl, module path)] of the leading import statements. A statement ends at its `;`
+    if there is one, else at the last token of the module path."""
+    stmts, i, n = [], 0, len(tl)
+    def nxt(j):
+        j += 1
+        while j < n and tl[j][0] in COMMENT_KINDS:
+            j += 1
+        return j
+    i = -1
+    i = nxt(i)
+    while i < n and tokcls(tl[i]) == "import":
+        j = i
+        while j < n and tokcls(tl[j]) != "from":
+            j = nxt(j)
+        if j >= n:
+            break
+        path, last = [], j
+        j = nxt(j)
+        while j < n and tl[j][0] in ("upper", "lower"):
+            path.append(tl[j][5]); last = j
+            k = nxt(j)
+            if k < n and tokcls(tl[k]) == "." and nxt(k) < n and tl[nxt(k)][0] in ("upper", "lower"):
+                j = nxt(k)
+            else:
+                j = k
+                break
+        if j < n and tokcls(tl[j]) == ";":
+            last = j
+            j = nxt(j)
+        stmts.append((last, ".".join(path)))
+        i = j
+    return stmts
+
+
+def expected_words(tl):
+    """The comment (kind, word) sequence the property allows in the output: comments keep their order,
+    except that the comments of an import statement move with that statement when the import lines are
+    sorted by module path (lines of one module are merged, in source order)."""
+    stmts = import_statements(tl)
+    groups = [[] for _ in stmts]
+    rest = []
+    for j, t in enumerate(tl):
+        if t[0] not in COMMENT_KINDS:
+            continue
+        ws = [(t[0], w) for w in t[5].split()]
+        for gi, (end, _) in enumerate(stmts):
+            if j < end:
+                groups[gi] += ws
+                break
+        else:
+            rest += ws
+    order = sorted(range(len(stmts)), key=lambda gi: (stmts[gi][1].encode(), gi))
+    return [w for gi in order for w in groups[gi]] + rest
 
 
 def judge(cases):
@@ -460,12 +536,9 @@ def judge(cases):
             else:
                 fail = "skip-unparseable"; c["detail"] = a1[:120]
         else:
-            ci, co = words_of(ti), words_of(to)
+            ci, co = expected_words(ti), words_of(to)
             if ci != co:
-                in_imports = c["ctx4"].split(" ")[1] in ("import", "from", ";") or c["ctx4"].split(" ")[2] in ("import", "from")
-                if sorted(ci) == sorted(co) and in_imports:
-                    fail = None       # comment riding on a sorted import line
-                elif len(co) < len(ci):
+                if len(co) < len(ci):
                     fail = "dropped"
                 elif len(co) > len(ci):
                     fail = "duplicated"
@@ -473,7 +546,7 @@ def judge(cases):
                     fail = "reordered"
                 else:
                     fail = "changed"
-                c["detail"] = f"comments in: {ci}; comments out: {co}"
+                c["detail"] = f"comments expected (source order, import lines moved as wholes): {ci}; comments out: {co}"
             if fail is None:
                 if a2.startswith("panic"):
                     fail = "reformat-panic"; c["detail"] = uh(a2[6:])
@@ -498,32 +571,28 @@ def only_empty_line_comments_added(o1, o2):
 
 def load_contexts():
     if not os.path.exists(CTX_FILE):
-        return {"known4": {}, "known2": {}, "ok4": []}
+        return {"dropped": []}
     return json.load(open(CTX_FILE))
 
 
 def classify(ctxs, c):
-    """known finding id or None (=> violation). Signature (see findings/C09.json): the comment sits in
-    a token gap whose 4-token context is recorded for that failure kind; a context never seen by the
-    reference enumeration falls back to the 2-token context."""
+    """known finding id or None (=> violation). Signatures (findings/C09.json) are exact:
+    C09-F2 = failure `dropped` at a position (module text hash, gap index, comment kind) that the
+    reference enumeration of the unchanged tree recorded as dropping; C09-F4 = `nonidempotent` where the
+    second pass only adds empty `//` lines. Nothing else is ever excused."""
     k = c["fail"]
     if k == "nonidempotent" and only_empty_line_comments_added(c.get("out") or "", c.get("out2") or ""):
         return "C09-F4"
-    if c["ctx4"] in ctxs["known4"].get(k, []):
-        return FINDING_OF_KIND.get(k)
-    if c["ctx4"] in ctxs["ok4_set"]:
-        return None
-    if c["ctx4"] not in ctxs["seen4_set"] and c["ctx2"] in ctxs["known2"].get(k, []):
-        return FINDING_OF_KIND.get(k)
+    if k == "dropped" and c.get("key") in ctxs["dropped_set"]:
+        return "C09-F2"
     return None
 
 
 def module_phase(ctx):
     rng = ctx.rng.fork()
     ctxs = load_contexts()
-    ctxs["ok4_set"] = set(ctxs.get("ok4", []))
-    ctxs["seen4_set"] = ctxs["ok4_set"] | {x for v in ctxs["known4"].values() for x in v}
-    bases = list(HAND_BASES)
+    ctxs["dropped_set"] = set(ctxs.get("dropped", []))
+    bases = list(HAND_BASES) + IMPORT_BASES
     pieces = repo_pieces(140 if ctx.quick else 400)
     nhand = len(bases)
     bases += pieces
@@ -612,23 +681,22 @@ def regen_contexts():
     """Maintenance (run on the unchanged tree only): enumerate every gap of every base and record the
     token contexts in which the unchanged code fails / passes.  `python3 -m vlib.c09 regen`"""
     common.build_harness(PROP)
-    bases = list(HAND_BASES) + repo_pieces(400)
+    bases = list(HAND_BASES) + IMPORT_BASES + repo_pieces(400)
     basetoks = tokens_of(bases)
     def select(bi, ngaps):
         for g in range(ngaps):
             for kind in COMMENT_KINDS:
                 yield (g, kind, "cmt one", 100)
     cases = judge(make_cases(bases, basetoks, select))
-    known4, known2, seen = collections.defaultdict(set), collections.defaultdict(set), collections.defaultdict(set)
+    dropped = sorted({c["key"] for c in cases if c["fail"] == "dropped"})
+    other = collections.Counter(c["fail"] for c in cases if c["fail"] not in (None, "dropped", "skip-unparseable"))
+    ctx4 = sorted({c["ctx4"] for c in cases if c["fail"] == "dropped"})
+    json.dump({"_comment": "generated by `python3 -m vlib.c09 regen` on the unchanged tree: exact positions (sha1(module text)[:10]:gap index:comment kind) at which parse+print drops an inserted comment (finding C09-F2); dropped_contexts is informational only (prev2 prev | next next2 token classes)",
+               "cases": len(cases), "dropped": dropped, "dropped_contexts": ctx4}, open(CTX_FILE, "w"), indent=0)
+    print("dropped positions:", len(dropped), "contexts:", len(ctx4), "cases:", len(cases), "other failures:", dict(other))
     for c in cases:
-        seen[c["ctx4"]].add(c["fail"] or "ok")
-        if c["fail"] and c["fail"] != "skip-unparseable":
-            known4[c["fail"]].add(c["ctx4"]); known2[c["fail"]].add(c["ctx2"])
-    ok4 = sorted(k for k, v in seen.items() if v == {"ok"})
-    json.dump({"_comment": "generated by `python3 -m vlib.c09 regen` on the unchanged tree: token contexts (prev2 prev | next next2) of comment gaps in which parse+print fails, per failure kind; ok4 = contexts seen only passing",
-               "cases": len(cases), "known4": {k: sorted(v) for k, v in known4.items()},
-               "known2": {k: sorted(v) for k, v in known2.items()}, "ok4": ok4}, open(CTX_FILE, "w"), indent=0)
-    print({k: len(v) for k, v in known4.items()}, "ok4:", len(ok4), "cases:", len(cases))
+        if c["fail"] not in (None, "dropped", "skip-unparseable"):
+            print(c["fail"], c["ctx4"], repr(c["src"][:300])); break
 
 
 # ------------------------------------------------------------------------------------------------
